@@ -185,52 +185,133 @@ def mode_iterable(form, values, I):
     raise ValueError(form)
 
 
-def bind(c, ts, w, mask, idx, rs):
-    """(function, positional args, keyword args) of the call a configuration prescribes.  The argument OBJECTS
-    (containers, arrays) are built once; execute() calls the function cfg.rep times on the very same objects."""
+# Published signatures of the pinned tree, FROZEN here (never read from the live functions): parameter names in
+# published order, and how many of them the "mixed" call form passes positionally.  cfg.cf = "pos" passes every
+# parameter positionally in this order, "kw" passes every parameter by these names.
+SIG = {
+    "mode_dot": (["tensor", "matrix_or_vector", "mode", "transpose"], 3),
+    "multi_mode_dot": (["tensor", "matrix_or_vec_list", "modes", "skip", "transpose"], 2),
+    "kronecker": (["matrices", "skip_matrix", "reverse"], 1),
+    "khatri_rao": (["matrices", "weights", "skip_matrix", "mask"], 1),
+    "inner": (["tensor1", "tensor2", "n_modes"], 2),
+    "outer": (["tensors"], 1),
+    "batched_outer": (["tensors"], 1),
+    "tensordot": (["tensor1", "tensor2", "modes", "batched_modes"], 3),
+    "mttkrp": (["tensor", "cp_tensor", "mode"], 3),
+    "moment": (["tensor", "order"], 2),
+    "sampled_kr": (["matrices", "n_samples", "skip_matrix", "indices_list", "return_sampled_rows", "random_state"], 2),
+}
+FUNC = {"mttkrp": "unfolding_dot_khatri_rao", "moment": "higher_order_moment"}      # public names where they differ
+
+
+def entry_point(c, backend):
+    """cfg.ep: the dispatching attribute tensorly.tenalg.<fn>, or the function of the backend package itself."""
+    import importlib
     from tensorly import tenalg
+    op = c["op"]
+    if op == "sampled_kr":
+        from tensorly.decomposition._cp import sample_khatri_rao
+        return sample_khatri_rao
+    if op == "mttkrp" and c["variant"] == "memory":
+        from tensorly.tenalg.core_tenalg.mttkrp import unfolding_dot_khatri_rao_memory
+        return unfolding_dot_khatri_rao_memory
+    name = FUNC.get(op, op)
+    if c["ep"] == "direct":
+        return getattr(importlib.import_module("tensorly.tenalg.%s_tenalg" % backend), name)
+    return getattr(tenalg, name)
+
+
+def bind(c, ts, w, mask, idx, rs):
+    """{parameter name: value} of the call a configuration prescribes (every published parameter, defaults
+    spelled out).  The argument OBJECTS are built once; execute() calls cfg.rep times on the very same objects."""
     op = c["op"]
     I = INT_FORMS[c["ity"]]                  # how integer-like arguments are passed
     C = CONTAINERS[c["ct"]]                  # how operand lists are passed
     none = lambda v: None if v < 0 else I(v)
     M = lambda values: mode_iterable(c["mf"], list(values), I)
     if op == "mode_dot":
-        return tenalg.mode_dot, (ts[0], ts[1], I(c["mode"])), dict(transpose=c["tr"])
+        return dict(tensor=ts[0], matrix_or_vector=ts[1], mode=I(c["mode"]), transpose=c["tr"])
     if op == "multi_mode_dot":
-        return tenalg.multi_mode_dot, (ts[0], C(ts[1:])), dict(modes=M(c["modes"]) if c["given"] else None,
-                                                              skip=none(c["skip"]), transpose=c["tr"])
+        return dict(tensor=ts[0], matrix_or_vec_list=C(ts[1:]), modes=M(c["modes"]) if c["given"] else None,
+                    skip=none(c["skip"]), transpose=c["tr"])
     if op == "kronecker":
-        return tenalg.kronecker, (C(ts),), dict(skip_matrix=none(c["skip"]), reverse=c["reverse"])
+        return dict(matrices=C(ts), skip_matrix=none(c["skip"]), reverse=c["reverse"])
     if op == "khatri_rao":
-        return tenalg.khatri_rao, (C(ts),), dict(weights=w, skip_matrix=none(c["skip"]), mask=mask)
+        return dict(matrices=C(ts), weights=w, skip_matrix=none(c["skip"]), mask=mask)
     if op == "inner":
-        return tenalg.inner, (ts[0], ts[1]), dict(n_modes=none(c["n"]))
-    if op == "outer":
-        return tenalg.outer, (C(ts),), {}
-    if op == "batched_outer":
-        return tenalg.batched_outer, (C(ts),), {}
+        return dict(tensor1=ts[0], tensor2=ts[1], n_modes=none(c["n"]))
+    if op in ("outer", "batched_outer"):
+        return dict(tensors=C(ts))
     if op == "tensordot":
         # the configuration carries the mode numbers AS SPELLED (negative = counted from the end, cfg.neg
         # says which arguments); the specification normalises them
         modes = I(len(c["m1"])) if c["mint"] else (M(c["m1"]), M(c["m2"]))
         batched = I(c["b1"][0]) if c["bint"] else (M(c["b1"]), M(c["b2"]))
-        return tenalg.tensordot, (ts[0], ts[1], modes), dict(batched_modes=batched)
+        return dict(tensor1=ts[0], tensor2=ts[1], modes=modes, batched_modes=batched)
     if op == "mttkrp":
-        if c["variant"] == "memory":
-            from tensorly.tenalg.core_tenalg.mttkrp import unfolding_dot_khatri_rao_memory as f
-        else:
-            f = tenalg.unfolding_dot_khatri_rao
-        return f, (ts[0], (w, C(ts[1:])), I(c["mode"])), {}
+        return dict(tensor=ts[0], cp_tensor=(w, C(ts[1:])), mode=I(c["mode"]))
     if op == "moment":
-        return tenalg.higher_order_moment, (ts[0], I(c["order"])), {}
+        return dict(tensor=ts[0], order=I(c["order"]))
     if op == "sampled_kr":
-        from tensorly.decomposition._cp import sample_khatri_rao
-        return sample_khatri_rao, (C(ts), I(c["ns"])), dict(skip_matrix=none(c["skip"]), indices_list=idx,
-                                                             return_sampled_rows=True, random_state=rs)
+        return dict(matrices=C(ts), n_samples=I(c["ns"]), skip_matrix=none(c["skip"]), indices_list=idx,
+                    return_sampled_rows=bool(c["rsr"]), random_state=rs)
     raise ValueError(op)
 
 
+def invoke(f, c, vals):
+    names, npos = SIG[c["op"]]
+    assert set(names) == set(vals), (names, sorted(vals))
+    if c["cf"] == "pos":
+        return f(*[vals[n] for n in names])
+    if c["cf"] == "kw":
+        return f(**vals)
+    return f(*[vals[n] for n in names[:npos]], **{n: vals[n] for n in names[npos:]})
+
+
+def failing_variant(c, vals, ts):
+    """cfg.pre = "failed": an earlier call with the SAME argument objects and one invalid option, whose
+    exception the caller catches before making the real call(s)."""
+    op = c["op"]
+    I = INT_FORMS[c["ity"]]
+    bad = dict(vals)
+    if op == "mode_dot":
+        bad["mode"] = I(len(c["shape"]) + 1)
+    elif op == "multi_mode_dot":
+        bad["modes"] = [I(len(c["shape"]) + 1)] * len(c["modes"])
+    elif op == "khatri_rao":
+        bad["weights"] = np.ones(c["R"] + 2)
+    elif op == "inner":
+        bad["n_modes"] = I(len(c["s1"]) + 1)
+    elif op == "tensordot":
+        bad["modes"] = ([I(len(c["s1"]) + 1)], [I(0)])
+    elif op == "mttkrp":
+        bad["mode"] = I(len(c["shape"]) + 1)
+    elif op == "sampled_kr":
+        bad["n_samples"] = I(-1)
+    else:
+        raise ValueError(op)
+    return bad
+
+
 IDX_FORMS = {"i16": np.int16, "i32": np.int32, "i64": np.int64}      # cfg.idt: caller-supplied sample indices
+
+
+def neg_zero(a):
+    """cfg.nz: every exact zero of a floating operand is passed as -0.0 (logged as 0)."""
+    if a is None or a.dtype.kind not in "fc":
+        return a
+    a = a.copy()
+    if a.dtype.kind == "c":
+        a.real[a.real == 0] = -0.0
+        a.imag[a.imag == 0] = -0.0
+    else:
+        a[a == 0] = -0.0
+    return a
+
+
+def alias_key(c, k, shape):
+    """Operands with the same key are ONE object when cfg.alias (mirror of MultilinearTrace.AliasKey, which re-checks)."""
+    return (tuple(shape), c["sc"][k], 1 if k == 0 and (c["dt"] != "same" or c["me"] != 0) else 0)
 
 
 def execute(case):
@@ -250,6 +331,14 @@ def execute(case):
     total = 2.0 ** c["e2"]                                   # ... which contributes 2^e2 to the result
     for code in sc:
         total *= SCALES[code]
+    if c["nz"]:
+        ts = [neg_zero(a) for a in ts]
+    if c["alias"]:                                           # equal-keyed operands are the same OBJECT
+        for k in range(1, len(ts)):
+            for j in range(k):
+                if alias_key(c, j, shapes[j]) == alias_key(c, k, shapes[k]):
+                    ts[k], logged[k] = ts[j], logged[j]
+                    break
     w = mask = idx = None
     # absent operands keep their type (TLC cannot compare a record / sequence with a string):
     # an absent tensor is the record with shape [0] and no entries, absent indices the empty list
@@ -263,32 +352,49 @@ def execute(case):
         lm = draw(rng, _skip(c["rows"], c["skip"]), t_other)
         mask = passed(lm, t_other, sc[len(shapes) + 1])
         ein["mask"] = enc(lm)
+    if c["nz"]:
+        w, mask = neg_zero(w), neg_zero(mask)
     if op == "sampled_kr" and c["given"]:
         idx = [rng.randint(0, r, size=c["ns"]) for r in _skip(c["rows"], c["skip"])]
         ein["idx"] = [[int(v) for v in ix] for ix in idx]
         idx = [[int(v) for v in ix] if c["idt"] == "list" else ix.astype(IDX_FORMS[c["idt"]]) for ix in idx]
     rs = np.random.RandomState(rng.randint(0, 2**31 - 1))
-    ev = {"id": case["id"], "op": op, "backend": case["backend"], "draw": case["draw"], "cplx": cplx, "cfg": c, "in": ein}
+    ev = {"id": case["id"], "op": op, "backend": case["backend"], "draw": case["draw"], "cplx": cplx, "cfg": c, "in": ein,
+          "pre_raised": False}
     prev = tenalg.get_backend()
     outs = []
     try:
         tenalg.set_backend(case["backend"])
         try:
-            f, args, kwargs = bind(c, ts, w, mask, idx, rs)
+            f = entry_point(c, case["backend"])
+            vals = bind(c, ts, w, mask, idx, rs)
         except Exception as ex:
             return {"id": case["id"], "harness_error": "bind: %s: %s" % (type(ex).__name__, ex)}
-        for call_no in range(c["rep"]):          # the SAME argument objects for every call
-            if call_no and c["mf"] in ONE_SHOT:  # ... except a one-shot iterator, which is legitimately used up:
-                _, args2, kwargs2 = bind(c, ts, w, mask, idx, rs)       # take only the fresh mode iterables
-                if op == "multi_mode_dot":
-                    kwargs = dict(kwargs, modes=kwargs2["modes"])
-                elif op == "tensordot":
-                    args = args[:2] + (args2[2],)
-                    kwargs = dict(kwargs, batched_modes=kwargs2["batched_modes"])
+
+        def fresh(v):                                # a one-shot iterator is legitimately used up by a call
+            if c["mf"] in ONE_SHOT:
+                v2 = bind(c, ts, w, mask, idx, rs)
+                for name in ("modes", "batched_modes"):
+                    if name in v:
+                        v = dict(v, **{name: v2[name]})
+            return v
+
+        if c["pre"] == "failed":                     # an earlier call on the same objects that (normally) fails
             try:
-                res = f(*args, **kwargs)
+                invoke(f, c, failing_variant(c, vals, ts))
+            except Exception:
+                ev["pre_raised"] = True
+            vals = fresh(vals)
+        for call_no in range(c["rep"]):              # the SAME argument objects for every call
+            if call_no:
+                vals = fresh(vals)
+            try:
+                res = invoke(f, c, vals)
                 if op == "sampled_kr":
-                    kr, indices, rows = res
+                    if c["rsr"]:
+                        kr, indices, rows = res
+                    else:
+                        (kr, indices), rows = res, []
                     out = proj(kr, total=total)
                     out["idx"] = [[int(v) for v in np.asarray(ix).ravel()] for ix in indices]
                     out["rows"] = [int(v) for v in np.asarray(rows).ravel()]
@@ -381,6 +487,10 @@ def run(chk, opts):
         "the configurations by the specification, one combination per configuration; excluded because the unchanged tree fails on them "
         "and the docstrings do not promise them: tensordot(modes=k / batched_modes=k) with k a NumPy integer (TypeError in both backends), "
         "einsum khatri_rao(tuple, weights=w) without skip_matrix (TypeError)",
+        "cfg.cf: arguments in the mixed form, all positional in the published order, or all by published keyword (names/order frozen in the "
+        "driver's SIG table); cfg.ep: dispatching attribute vs the backend package's own function; cfg.alias: equal-shaped operands are one "
+        "object; cfg.pre: an earlier failing call on the same objects is caught first (its outcome is not judged); cfg.nz: zeros passed as "
+        "-0.0; magnitude 2^-1074 makes the first operand subnormal; cfg.rsr: sample_khatri_rao with and without return_sampled_rows",
         "cfg.mf: sequences of modes (multi_mode_dot modes, tensordot mode lists) are passed as list / tuple / ndarray / dict keys / range / "
         "one-shot iterators (iter, generator, map, reversed)",
         "cfg.rep: the call is repeated 1-3 times on the same argument objects and every call must return the documented value; "
